@@ -455,6 +455,32 @@ theorem parked_means_live_holder (es : List Ev) (g : G) (i : Nat) (hg : g ∈ (r
     (run {} es).srv.key = some (.ph i) ∧ i ∈ (run {} es).srv.alive :=
   ⟨((waiter_not_lost_run es g hg).2.1 i hp).1 hk, ((waiter_not_lost_run es g hg).2.1 i hp).2 hi⟩
 
+/-! ### 5b. releasing a dead holder's lock is compare-and-delete -/
+
+/-- the release a Get performs after it found holder `i`'s liveness key missing is the delkey
+script on the placeholder VALUE it read: in every state — hence in every interleaving, however
+long the Get was delayed and whatever happened meanwhile — it leaves the placeholder of any
+other client `j` in place. A second client that detected the same dead holder later cannot
+remove the lock the first one has taken in the meantime. -/
+theorem release_of_dead_lock_never_removes_live_placeholder (s : Sys) (idx : Nat) (load : Option Val) (g : G)
+    (i j : Nat) (hg : s.gs[idx]? = some g) (hpc : g.pc = .freeing i) (hk : s.srv.key = some (.ph j)) (hne : j ≠ i) :
+    (next s (.step idx load)).srv.key = some (.ph j) := by
+  simp only [next, hg]
+  obtain ⟨id, pc, wk, wi, canc⟩ := g
+  simp only at hpc
+  subst hpc
+  cases canc <;> simp [gstep, gstepLive, gstepCancelled, delkey, hk, hne]
+
+/-- and it does remove the dead holder's own placeholder (the lock is released) -/
+theorem release_of_dead_lock_removes_it (s : Sys) (idx : Nat) (load : Option Val) (g : G)
+    (i : Nat) (hg : s.gs[idx]? = some g) (hpc : g.pc = .freeing i) (hk : s.srv.key = some (.ph i)) :
+    (next s (.step idx load)).srv.key = none := by
+  simp only [next, hg]
+  obtain ⟨id, pc, wk, wi, canc⟩ := g
+  simp only at hpc
+  subst hpc
+  cases canc <;> simp [gstep, gstepLive, gstepCancelled, delkey, hk]
+
 /-! ### 6. script facts and non-vacuity -/
 theorem acquire_iff_absent (id : Nat) (k : Option Val) : (acquire id k).2 = none ↔ k = none := by
   cases k <;> simp [acquire]
